@@ -136,4 +136,15 @@ initial guess, frame simulation) is a function of the resolved module -/
 def simulateSpelled {α : Type} (run : SimMethod → α) (spelling : Option String) : Option α :=
   (resolveMethod spelling).map run
 
+/-! ## 5. The loop over variants -/
+
+/-- exhaust-then-last broadcasting of data variants to `n` model variants (`Dataslate.from_databox_for_slatable(num_variants=n)`) -/
+def broadcastVariants {γ : Type} (n : Nat) (datas : List γ) : List γ :=
+  (List.range n).filterMap fun k => datas[min k (datas.length - 1)]?
+
+/-- the variant loop of `Simultaneous.simulate`: `zip(range(num_variants), self.iter_variants(), dataslate.iter_variants())`; variant k
+of the model is run on variant k of the data, **including the input snapshot the exogenized values are read from**; the plan is shared -/
+def simulateVariants {β γ α : Type} (run : β → γ → α) (models : List β) (datas : List γ) : List α :=
+  List.zipWith run models (broadcastVariants models.length datas)
+
 end IrisVerif.Plans
